@@ -1049,7 +1049,7 @@ Proof.
 Qed.
 
 (* ====================================================================== *)
-(* the current tree (no fix): refutations by minimal histories *)
+(* the PINNED tree (historic: no fix; before 0429c9b / 7f6adbc / 141de51): refutations by minimal histories *)
 
 Definition cfg_now (l g : bool) (w : nat) (rmax : bool) : config :=
   mkConfig l g w rmax false false false.
@@ -1222,7 +1222,7 @@ Lemma wit_stale_track_contract :
          (trace (cfg_now false false 1 false) init wit_stale_track).
 Proof. trace_contract; [apply contract_stale_1 | apply contract_stale_2]. Qed.
 
-(* --- refutations on the current tree --- *)
+(* --- refutations on the pinned (historic) tree --- *)
 
 Lemma completeness_refuted_now : forall l,
   let cfg := cfg_now l false 3 false in
